@@ -212,7 +212,8 @@ CaseSum ==
 EmitPick == atoi(IOEnv.C10_PICK) % EmitMod
 
 EmitInv ==
-    (Emit /\ pc = "done" /\ CaseSum % EmitMod = EmitPick) =>
+    \* (the few cases on the empty document are always printed: they alone take DenseFinishRepaired)
+    (Emit /\ pc = "done" /\ (CaseSum % EmitMod = EmitPick \/ DOMAIN before.objs = {})) =>
         PrintT(<<"REPLAY", ToJson([before |-> JsonOfDoc(before),
                                    start  |-> start,
                                    v      |-> Verdict,
